@@ -1,10 +1,10 @@
 SPECIFICATION Spec
 CONSTANTS
-  Dims = {4}
-  MaxBins = 3
-  BinChoices = {1, 2, 3}
+  Dims = {3}
+  MaxBins = 7
+  BinChoices = {1, 4, 5, 7}
   Scales = {0}
-  Bounds <- DBounds
+  Bounds <- W3Bounds
 INVARIANT Exact
 INVARIANT Representable
 INVARIANT CountIsProduct
